@@ -5,7 +5,7 @@
    exports every row, plus simulated histories of three lines typed by the same player.
 2. The Go harness types each line into the real play session handler of a player (family chosen
    by the client protocol) on a real proxy with real registered commands (one with a permission
-   requirement, one alias, one with an argument, one under a mixed-case literal) and a scripted CommandExecuteEvent subscriber,
+   requirement, one alias, one with an argument, one under a mixed-case literal, one whose handler fails) and a scripted CommandExecuteEvent subscriber,
    and records which command handlers ran and what the backend connection received.
 3. TLC validates the recorded lines with CommandDispatch_Trace.tla (same Decision operator).
 """
@@ -41,7 +41,7 @@ def run(ctx):
     for x in rows:
         x["origin"] = "table"
     ctx.log("CommandDispatch.tla: %d rows, table satisfies the statement" % len(rows))
-    r = ctx.tlc("CommandDispatch", "CommandDispatch_sim.cfg", workers=1, simulate=ctx.pick(300, 6000), depth=5)
+    r = ctx.tlc("CommandDispatch", "CommandDispatch_sim.cfg", workers=1, simulate=ctx.pick(200, 6000), depth=5)
     sims = r.printed_json("CASE")
     for x in sims:
         x["origin"] = "simulate3"
@@ -60,7 +60,7 @@ def run(ctx):
         ctx.finding(classify(reset, bad), "command line handled differently from the decision table: %s (player %s)"
                     % (json.dumps(bad), json.dumps({k: reset.get(k) for k in ("fam", "perm", "proto", "fka")})), rj)
     if not rejected:      # a run in which nothing was rejected must at least have seen every kind of outcome
-        for k in ("vopen", "vperm", "vargs", "vmix"):
+        for k in ("vopen", "vperm", "vargs", "vmix", "verr"):
             if not st["execs"].get(k):
                 raise vlib.ToolError("vacuous: proxy command %s never ran" % k)
         for k in ("legacy", "keyed", "scmd", "ucmd"):
@@ -82,7 +82,7 @@ def run(ctx):
         "exhaustive": True,
     }
     return ctx.finish("model_checking", cov, [
-        "the table is exhaustive over the fixture's command universe (12 typed lines x 5 rewrite targets), not over all strings",
+        "the table is exhaustive over the fixture's command universe (13 typed lines x 5 rewrite targets), not over all strings",
         "client packets enter as decoded packets through clientPlaySessionHandler.HandlePacket",
     ])
 
@@ -102,7 +102,7 @@ def classify(reset, bad):
         want = ("/" + eff) if reset.get("fam") == "legacy" else eff
         if bad["back"][0]["txt"] != want:
             wrong_text = ":text=" + ("original" if bad["back"][0]["txt"].lstrip("/") == bad["line"] else "other")
-    reg = lambda l: l in ("vopen", "vperm", "valias", "vargs w", "vargs z", "VMix")
+    reg = lambda l: l in ("vopen", "vperm", "valias", "vargs w", "vargs z", "VMix", "verr")
     eff = bad["to"] or bad["line"]
     return "%s:%s%s:%s:%s->%s%s" % (reset.get("fam"), res, ":signed" if bad["signed"] else "",
                                    "registered" if reg(eff) else "unregistered",
